@@ -8,7 +8,7 @@ HARNESS_C = os.path.join(VERIF, "harness_c")
 HEADER = """From Coq Require Import ZArith NArith List Bool Floats.
 From CE Require Import Num NumFloat Str Comp Formula CBind CBindCheck.
 Import ListNotations. Open Scope float_scope."""
-THEOREMS = []
+THEOREMS = ["C17_no_abort", "C17_errors_change_nothing", "C17_effects", "C17_parse_handle", "C17_accounting", "C17_no_use_after_free"]
 
 
 def codes(l):
